@@ -1,11 +1,11 @@
 CONSTANTS Vars <- VarsXY
- MaxStmts = 3
+ MaxStmts = 2
  Kinds <- KindsC16
- LitIdx <- LitsSmall
+ LitIdx <- LitsAll
  Imports <- NoImports
- Configs <- ConfigsNow
+ Configs <- ConfigsOld
  Shape = "free"
  Emit = TRUE
 SPECIFICATION Spec
-INVARIANTS AlgoRefinesPython Fresh EmitCase
+INVARIANTS HistoryOK AlgoRefinesPython FoldOnly Fresh WellFormedHeap EmitCase
 CHECK_DEADLOCK FALSE
